@@ -45,6 +45,103 @@ def runBc (ops : List String) : String :=
 
 def sumR (l : List Rat) : Rat := l.foldl (· + ·) 0
 
+/-! ### rvb mode -/
+
+def parseEdges (s : String) : List (Nat × Nat × Rat) :=
+  (parseList id s).filterMap fun tok =>
+    match tok.splitOn ":" with
+    | [a, b, j] => some (parseNat a, parseNat b, parseRat j)
+    | _ => none
+
+def mkMask (nv : Nat) (subvars : List Nat) (start : List Bool) : List Bool :=
+  (subvars.zip start).foldl (fun m vb => m.set vb.1 vb.2) (List.replicate nv false)
+
+/-- positions of the constant operators on variable `v`, in slot order (`constant_ops_on_var`) -/
+def constPs (slots : Slots) (v : Nat) : List Nat :=
+  ((List.range slots.length).zip slots).filterMap fun (p, o) =>
+    match o with
+    | some op => if op.const && op.vars.contains v then some p else none
+    | none => none
+
+/-- membership mask just after slot `p0` (toggles at positions `≤ p0` applied) -/
+def maskAfter (slots : Slots) (R : Region) (p0 : Nat) : List Bool :=
+  R.toggles.foldl (fun m p =>
+    if p ≤ p0 then
+      match slots.getD p none with
+      | some op => toggleAt m (op.vars.headD 0)
+      | none => m
+    else m) R.mask0
+
+/-- number of (variable, interval between constant operators) cells inside the region -/
+def cellCount (nv : Nat) (slots : Slots) (R : Region) : Nat :=
+  (List.range nv).foldl (fun acc v =>
+    let cps := constPs slots v
+    if cps.isEmpty then (if getB R.mask0 v then acc + 1 else acc)
+    else acc + (cps.filter fun p => getB (maskAfter slots R p) v).length) 0
+
+def allB (l : List Bool) : Bool := l.all id
+
+def admissibleB (P : Problem) (a : Assign) : Bool :=
+  P.segs.all (fun s => s.bonds.all fun p => decide (0 ≤ p.1) && decide (0 ≤ p.2)) &&
+  P.inner.all (fun p => decide (0 ≤ p.1) && decide (0 ≤ p.2)) &&
+  P.segs.all (fun s => !(decide (absR (s.wBef - s.wAft) < f64eps)) || decide (s.wBef = s.wAft)) &&
+  (P.segs.zip a).all (fun sj => sj.2.isEmpty || decide (sj.1.wBef ≠ 0))
+
+def rvbStep (nv edges gamma h state slots subvars start toggles accepted log astate aslots : String) : String :=
+  let E : Ising := { nvars := parseNat nv, edges := parseEdges edges, gamma := parseRat gamma, h := parseRat h }
+  let b : Config := { state := parseBits state, slots := parseSlots slots }
+  let a : Config := { state := parseBits astate, slots := parseSlots aslots }
+  let sv := parseNats subvars
+  let R : Region := { subvars := sv, mask0 := mkMask E.nvars sv (parseBits start), toggles := parseNats toggles }
+  let acc := accepted == "1"
+  let words := parseNats log
+  let (P, asg, okB) := extract E b R
+  let ks := asg.map List.length
+  let k : Nat := ks.foldl (fun (x y : Nat) => x + y) 0
+  let p := rawMult P ks
+  -- acceptance decision against p and the accept draw
+  let len := words.length
+  let (accOk, margin) : Bool × Rat :=
+    if 1 ≤ p then (acc, 1)
+    else
+      let idx : Int := (len : Int) - 1 - (if acc then (k : Int) else 0)
+      if idx < 2 then (false, 1)
+      else
+        let w := words.getD idx.toNat 0
+        let thr : Int := (p * (RS.two64 : Rat)).floor
+        let d := (w : Rat) / (RS.two64 : Rat) - p
+        (decide ((w : Int) < thr) == acc, if d < 0 then -d else d)
+  -- starting cell, cluster size, number of growth draws
+  let cps := (List.range E.nvars).map (constPs b.slots)
+  let flat := cps.flatten
+  let idle := (List.range E.nvars).filter fun v => (cps.getD v []).isEmpty
+  let (choice, rs) := (RS.ofScript words).genRange (flat.length + idle.length)
+  let startOk :=
+    if choice < flat.length then
+      let p0 := flat.getD choice 0
+      match b.slots.getD p0 none with
+      | some op => getB (maskAfter b.slots R p0) (op.vars.headD 0)
+      | none => false
+    else getB R.mask0 (idle.getD (choice - flat.length) 0)
+  let (ones, rs2) := contiguousBits rs
+  let cells := cellCount E.nvars b.slots R
+  let growth : Int := (len : Int) - (rs2.draws : Int) - (if 1 ≤ p then 0 else 1) - (if acc then (k : Int) else 0)
+  let growOk := decide (cells ≤ ones + 1) && decide ((cells : Int) ≤ growth) && decide (growth ≤ 2 * (cells : Int)) &&
+    decide (1 ≤ cells)
+  -- move relation / nothing changed
+  let moveTok := if acc then showBool (isRvbMove E b a R) else "-"
+  -- reverse multiplier and exact balance on the pair
+  let (P2, asg2, okA) := extract E a R
+  let p2Tok := if acc then showApprox (rawMult P2 (asg2.map List.length)) else "-"
+  let dbOk :=
+    if acc then
+      okB && okA && decide (P2 = P.flip) && decide (asg.map List.length = asg2.map List.length) &&
+        admissibleB P asg && admissibleB P2 asg2 &&
+        decide (weight P asg * transProb P asg asg2 = weight P2 asg2 * transProb P2 asg2 asg)
+    else decide (a = b) && okB
+  let verdict := if margin < 1 / 1000000000 then "?" else "ok"
+  s!"{showApprox p} {k} {showBool accOk} {showBool (startOk && growOk)} {moveTok} {p2Tok} {showBool dbOk} {verdict} DBG start={startOk} cells={cells} ones={ones} growth={growth} choice={choice} flat={flat.length} idle={idle.length} draws={rs2.draws} len={len} acc={acc}"
+
 def step (toks : List String) : String :=
   match toks with
   | ["rd", l] => showNats (removeDoubles (parseNats l))
@@ -58,6 +155,9 @@ def step (toks : List String) : String :=
     let (n, s) := contiguousBits (RS.ofScript [parseNat w])
     s!"{n} {s.draws}"
   | ["bc", ops] => runBc (parseList id ops)
+  | ["rvb", nv, edges, gamma, h, state, slots, subvars, start, toggles, accepted, log, astate, aslots] =>
+    rvbStep nv edges gamma h state slots subvars start toggles accepted log astate aslots
+  | "sweepk" :: _ => "same"
   | _ => "bad-op"
 
 def main : IO Unit := run step
